@@ -520,6 +520,10 @@ class HyperscanTokenizer(Tokenizer):
                 start = byte_to_str_offset[start]
                 end = byte_to_str_offset[end]
                 m = extractor.compiled_regex.match(text[start:end])
+                if m is None:
+                    # hyperscan's byte-based character classes can accept
+                    # text that the unicode-aware python regex rejects
+                    continue
                 yield extractor.get_token(m, offset=start)
 
     @property
